@@ -92,6 +92,25 @@ def valid_value(el_name):
     return _VAL[el_name]
 
 
+_ALT = {}
+
+
+def alt_value(el_name):
+    """a second valid value for the element's simple content, different from valid_value (None if there is none)"""
+    if el_name not in _ALT:
+        tn, c, st = type_of(el_name)
+        v = valid_value(el_name)
+        if st is None:
+            _ALT[el_name] = None
+        else:
+            try:
+                a = lex.Lex(st).sample_value(avoid=[v])
+            except Exception:
+                a = None
+            _ALT[el_name] = a if a != v else None
+    return _ALT[el_name]
+
+
 _ATTR = {}
 
 
